@@ -150,7 +150,36 @@ fn main() {
 	for h in 1..=n_trunk as u64 {
 		// spend the oldest mature coinbase / plain output in most blocks
 		let mut specs = vec![];
-		if h >= 4 && (h % 3 != 0 || h + 3 >= n_trunk as u64) {
+		if long && (8..=16).contains(&h) {
+			// nine fat blocks: one output split into 128, so that the output MMR (and the bitmap of
+			// unspent outputs rebuilt at every restart) spans more than one 1024-leaf chunk
+			if let Some(pos) = spendable.iter().position(|(o, c)| (!kit.outs[*o].coinbase || h >= *c + 3) && kit.outs[*o].value > 100_000) {
+				let (o, _) = spendable.remove(pos);
+				let v = kit.outs[o].value;
+				let part = (v - 1) / 128;
+				let mut outputs = vec![(part, None); 127];
+				outputs.push((v - 1 - part * 127, None));
+				specs.push(TxSpec { inputs: vec![o], outputs, kernel: KSpec::Plain(1) });
+			}
+		} else if long && h == 20 {
+			// ... and one block spending a hundred of them at once (more than the last chunk holds)
+			let mut ins = vec![];
+			let mut total = 0u64;
+			let mut k = 0;
+			while k < spendable.len() && ins.len() < 100 {
+				let (o, _) = spendable[k];
+				if !kit.outs[o].coinbase && kit.outs[o].value < 1_000_000_000 {
+					total += kit.outs[o].value;
+					ins.push(o);
+					spendable.remove(k);
+				} else {
+					k += 1;
+				}
+			}
+			if ins.len() >= 2 {
+				specs.push(TxSpec { inputs: ins, outputs: vec![(total - 1, None)], kernel: KSpec::Plain(1) });
+			}
+		} else if h >= 4 && (h % 3 != 0 || h + 3 >= n_trunk as u64) {
 			if let Some(pos) = spendable.iter().position(|(o, c)| !kit.outs[*o].coinbase || h >= *c + 3) {
 				let (o, _) = spendable.remove(pos);
 				let v = kit.outs[o].value;
@@ -205,6 +234,8 @@ fn main() {
 	let eq_specs = spend_for_fork(&kit, &spendable, kit.blks[trunk[n - 1]].height + 1);
 	let eq_blk = kit.new_block(trunk[n - 1], 15, &eq_specs).ok();
 	let eq_child = eq_blk.and_then(|e| kit.new_block(e, 2, &[]).ok());
+	// a sibling of the tip with exactly the tip's total work (first seen wins: no reorganisation)
+	let eqw_blk = kit.new_block(trunk[n - 1], 2, &[]).ok();
 	std::fs::create_dir_all(format!("{}/blocks", work)).unwrap();
 	let gen_path = format!("{}/blocks/genesis.bin", work);
 	write_block(&gen_path, &kit.genesis);
@@ -231,6 +262,12 @@ fn main() {
 	if let (Some(e), Some(ec)) = (eq_blk, eq_child) {
 		scenarios.push(Scenario { name: "header-reorg-equal-height", pre: trunk[1..=n].to_vec(), compact_pre: false, kind: "header", input: Some(e), followup: Some(ec) });
 		scenarios.push(Scenario { name: "block-reorg-equal-height", pre: trunk[1..=n].to_vec(), compact_pre: false, kind: "block", input: Some(e), followup: Some(ec) });
+	}
+	if let Some(e) = eqw_blk {
+		if kit.blks[e].work == kit.blks[trunk[n]].work {
+			scenarios.push(Scenario { name: "equal-work-fork-block", pre: trunk[1..=n].to_vec(), compact_pre: false, kind: "block", input: Some(e), followup: None });
+			scenarios.push(Scenario { name: "equal-work-fork-header", pre: trunk[1..=n].to_vec(), compact_pre: false, kind: "header", input: Some(e), followup: None });
+		}
 	}
 	if long {
 		scenarios.push(Scenario { name: "compaction", pre: trunk[1..=n].to_vec(), compact_pre: false, kind: "compact", input: None, followup: None });
